@@ -2582,7 +2582,7 @@ class TupleParser:
             new_exc = CIMXMLParseError(
                 _format("Cannot convert value {0!A} to numeric CIM type {1}: "
                         "{2}",
-                        value, cimtype, exc),
+                        data, cimtype, exc),
                 conn_id=self.conn_id)
             new_exc.__cause__ = None
             raise new_exc
